@@ -6,7 +6,7 @@ def _imp(name, entry, text, tu, symq=None, symt=None, extra_cfg=None, trq=2, in_
     symq = range(n) if symq is None else symq; symt = range(n) if symt is None else symt
     H(id='C12_imp_' + name, property='C12', src='C12_import.cc', entry=entry, tu=tu + ['parse_helper.cc', 'mpz_helper.cc'], unwind=12, full_checks=True,
       defines={'VF_BITS': 26, 'MINISTL_STRING_MINCAP': 63, 'MINISTL_STREAM_CAP': 64}, config=dict({'TMCG_MAX_PLAYERS': 4, 'TMCG_MAX_TYPEBITS': 3, 'TMCG_MAX_CARDS': 4, 'TMCG_MAX_CARD_CHARS': 24}, **(extra_cfg or {})),
-      models=GCRY_MODELS, timeout=600,
+      models=GCRY_MODELS, timeout=1500,
       desc='%s on a well-formed text with one byte replaced by an arbitrary value (or cut there): result or standard exception, no memory error/abort, accepted objects within configured limits' % entry[2:],
       symbolic='the replacing byte (1..255) at the slice position', bounds='text %r (%d bytes): symbolic byte at positions %s (quick) / %s (thorough), one query each; truncation at every second position; TMCG_MAX_PLAYERS=4, TYPEBITS=3, CARDS=4' % (text, n, list(symq), list(symt)),
       slices=[{'H_POS': i} for i in symq] + trquick, tiers={'thorough': {'slices': [{'H_POS': i} for i in symt] + tr, 'timeout': 3000}})
